@@ -22,6 +22,8 @@ func Generate(prop string, seed uint64) *Scenario {
 		return GenUciSession(prop, seed)
 	case "C16":
 		return GenC16Session(seed)
+	case "C11":
+		return GenTT(seed)
 	case "C14":
 		if seed%4 == 3 {
 			return GenUciSession(prop, seed)
@@ -66,6 +68,15 @@ func RunScenario(t *testing.T, sc *Scenario) *RunResult {
 			case "game":
 				out := RunGame(sc)
 				finishGame(sc, out, res)
+			case "tt":
+				out := RunTT(sc)
+				res.Violations = append(res.Violations, out.Violations...)
+				res.Faults, res.Probes = out.Faults, out.Probes
+				res.Signature = fmt.Sprintf("%016x", out.StateHash)
+				res.NonTrivial = out.Faults["F12_index_collision"] > 0
+				res.TraceHash = fmt.Sprintf("%016x", out.StateHash)
+				res.SimNs = out.Sim.Now()
+				res.count("ops", int64(out.Ops))
 			case "api":
 				out := RunApiScript(sc)
 				finishApi(sc, out, res)
